@@ -156,6 +156,13 @@ func (e *Env) lookupID(name string) (Val, bool) {
 		e.fail("result not available here")
 		return Val{"0", SInt, nil}, true
 	case "$i":
+		if e.li != nil && e.li.kind == "maprange" && e.li.idxCell != "" {
+			// number of keys produced so far by the map range
+			if c, ok := e.st.cells[e.li.idxCell]; ok {
+				return Val{c, SInt, types.Typ[types.Int]}, true
+			}
+			return Val{"0", SInt, types.Typ[types.Int]}, true
+		}
 		if e.li != nil && e.li.idxCell != "" {
 			idx := f.getCell(e.localState(), e.li.idxCell, SInt)
 			return Val{sx("+", idx, "1"), SInt, types.Typ[types.Int]}, true
@@ -606,6 +613,11 @@ func (e *Env) evalCall(x *Expr) Val {
 			return Val{sx("strlen", sx("bs_c", a.t)), SInt, types.Typ[types.Int]}
 		case a.s == SStr:
 			return Val{sx("strlen", a.t), SInt, types.Typ[types.Int]}
+		}
+		if a.gt != nil {
+			if _, ok := a.gt.Underlying().(*types.Map); ok {
+				return Val{f.mapLen(e.st, a.t, a.gt), SInt, types.Typ[types.Int]}
+			}
 		}
 		e.fail("len of %s", a.s)
 		return Val{"0", SInt, nil}
